@@ -53,8 +53,10 @@ def handle (input : String) : String :=
       -- `unpack` is a function of the key ring and the envelope: a second envelope of the same parties (q) and the
       -- first one again (r) come out as the first time
       let b := (baseline c).zipIdx
+      -- ... and the same message through every party's PACKAGER (keys named by did:key / DID-URL ids, packer chosen by
+      -- media type profile) comes out the same again (g)
       "pack=ok " ++ " ".intercalate (b.map (fun (s, i) => s!"p{i}={s}") ++ b.map (fun (s, i) => s!"q{i}={s}")
-        ++ b.map (fun (s, i) => s!"r{i}={s}"))
+        ++ b.map (fun (s, i) => s!"r{i}={s}") ++ b.map (fun (s, i) => s!"g{i}={s}"))
   | _ => "bad-input"
 
 /-- C02: (model column, spec column). The baseline part of the outcome must be what the model predicts; the mutated part
